@@ -16,6 +16,14 @@ for bid in sys.argv[2:]:
     meta = json.load(open(d + "/meta.json"))
     subprocess.run(["git", "-C", wt, "checkout", "-q", "--", "."], check=True)
     ap = subprocess.run(["git", "-C", wt, "apply", d + "/patch.diff"], capture_output=True, text=True)
+    if ap.returncode:      # context lines moved by a later repair: try a three-way merge before giving up
+        subprocess.run(["git", "-C", wt, "checkout", "-q", "--", "."], check=True)
+        ap = subprocess.run(["git", "-C", wt, "apply", "--3way", d + "/patch.diff"], capture_output=True, text=True)
+        if ap.returncode or "conflict" in (ap.stderr + ap.stdout).lower():
+            subprocess.run(["git", "-C", wt, "reset", "-q", "--hard", head], check=False)
+            ap.returncode = 1
+        else:
+            subprocess.run(["git", "-C", wt, "reset", "-q"], check=False)      # keep the merged change in the working tree only
     if ap.returncode:
         meta.setdefault("runs", []).append({"head": head[:7], "outcome": "patch no longer applies (the code it refactors was repaired since)"})
         json.dump(meta, open(d + "/meta.json", "w"), indent=1)
